@@ -23,7 +23,8 @@ class Ctx:
         self.scopes = [[]]
         self.targets = []      # enclosing jump targets, innermost last: {"kind": "loop"|"lblock", "label", "vty"}
         self.hoist = []        # stack of statement lists receiving hoisted declarations
-        self.budget = 28       # statements left in this function
+        self.budget = 22       # statements left in this function
+        self.deferred_names = set()
         self.in_expr = 0       # > 0 while generating the blocks of an if / block / switch EXPRESSION
         self.depth = 0         # block nesting depth
         self.defers = 0        # enclosing blocks of this function that hold a defer
@@ -58,6 +59,7 @@ class ExprGen:
         self.float_on = False
         self.agg_eq_on = True
         self.variant_direct = False
+        self.weak_lit_errunion = False
 
     # ------------------------------------------------------------------ small helpers
     def use(self, tag):
@@ -553,7 +555,15 @@ class ExprGen:
         if k == "err":
             self.use("errunion")
             if rng.chance(1, 2):
-                return N("wrap", how="ok", e=self.sum_inner(ctx, b[2], d1), ty=ty)
+                inner = self.sum_inner(ctx, b[2], d1)
+                if inner.k == "lit" and inner.bare and self.is_int(inner.ty) and (abs(inner.val) >= (1 << 31) or inner.val == -(1 << (self.info(inner.ty)[0] - 1))):
+                    # recorded defect 'weak_lit_errunion': an untyped literal >= 2^31 (or the `-MAX - 1` spelling of MIN)
+                    # converted to an error union panics codegen / fails the cranelift verifier
+                    if self.weak_lit_errunion:
+                        self.use("weak_lit_errunion")
+                    else:
+                        strong(inner)
+                return N("wrap", how="ok", e=inner, ty=ty)
             return N("wrap", how="err", e=self.sum_inner(ctx, b[1], d1), ty=ty)
         if k == "ptr":
             return self.gen_ptr(ctx, ty)
